@@ -2,6 +2,7 @@ import GraafVerif.Proof.Conv
 import GraafVerif.Proof.ConvFrom
 import GraafVerif.Proof.ConvInj
 import GraafVerif.Model.ConvChain
+import GraafVerif.Proof.ConvEq
 /-!
 # C16 — conversions between representations preserve the digraph
 
@@ -356,6 +357,78 @@ theorem chain_preserves (tags : List String) : ∀ (src : Any), OkAny src → Fi
           refine ⟨d, hd, hdok, ?_⟩
           exact ⟨by rw [hds.1, hs.1], fun u v => by rw [hds.2, hs.2]⟩
 
+/-! ## structural identity as the implementation's `==` sees it (round 4)
+
+The model representation is canonical (`*.ext_arcs`): a valid digraph equals the one rebuilt by
+`empty(order)` + `add_arc` over its own arcs, and equals its round trip through every other
+representation.  `eqChecks` (Model/ConvEq.lean) is what the harness observes with `==`. -/
+
+theorem rebuild_al (d : AdjList) (h : OkAL d) : Conv.AL.rebuild d = some d := Conv.AL.rebuild_eq h
+theorem rebuild_am (d : AdjMap) (h : OkAM d) : Conv.AM.rebuild d = some d := Conv.AM.rebuild_eq h.1 h.2.1 h.2.2
+theorem rebuild_mx (d : AdjMatrix) (h : OkMX d) : Conv.MX.rebuild d = some d := Conv.MX.rebuild_eq h.1 h.2
+theorem rebuild_el (d : EdgeList) (h : OkEL d) : Conv.EL.rebuild d = some d := Conv.EL.rebuild_eq h
+/-- weighted list with arbitrary weights (`add_arc_weighted` over `arcs_weighted()`) -/
+theorem rebuild_wl (d : AdjListW) (h : d.WF) : Conv.WL.rebuild d = some d := Conv.WL.rebuild_eq h
+
+private theorem bind_rt {S T : Type} {f : Option S} {g : S → Option T} {d : T}
+    (hex : ∃ t, f = some t) (hrt : ∀ t, f = some t → g t = some d) : f.bind g = some d := by
+  obtain ⟨t, ht⟩ := hex
+  rw [ht]; exact hrt t ht
+
+/-- **Every `==` check the harness makes on a valid digraph is `true`.** -/
+theorem eqChecks_true (x : Any) (h : OkAny x) (hf : Fits x.order) : ∀ b ∈ eqChecks x, b = true := by
+  cases x with
+  | al d =>
+    have c := converts_from_al d h
+    have r := roundtrip_al d h
+    have e1 := rebuild_al d h
+    have e2 := bind_rt (let ⟨t, ht, _⟩ := c.1; ⟨t, ht⟩) r.1
+    have e3 := bind_rt (let ⟨t, ht, _⟩ := c.2.1 hf; ⟨t, ht⟩) r.2.1
+    have e4 := bind_rt (let ⟨t, ht, _⟩ := c.2.2.1; ⟨t, ht⟩) r.2.2
+    intro b hb; simp only [eqChecks, e1, e2, e3, e4, decide_true, List.mem_cons, List.not_mem_nil, or_false, or_self] at hb
+    exact hb
+  | am d =>
+    have c := converts_from_am d h
+    have r := roundtrip_am d h
+    have e1 := rebuild_am d h
+    have e2 := bind_rt (let ⟨t, ht, _⟩ := c.1; ⟨t, ht⟩) r.1
+    have e3 := bind_rt (let ⟨t, ht, _⟩ := c.2.1 hf; ⟨t, ht⟩) r.2.1
+    have e4 := bind_rt (let ⟨t, ht, _⟩ := c.2.2.1; ⟨t, ht⟩) r.2.2
+    intro b hb; simp only [eqChecks, e1, e2, e3, e4, decide_true, List.mem_cons, List.not_mem_nil, or_false, or_self] at hb
+    exact hb
+  | mx d =>
+    have c := converts_from_mx d h
+    have r := roundtrip_mx d h
+    have e1 := rebuild_mx d h
+    have e2 := bind_rt (let ⟨t, ht, _⟩ := c.1; ⟨t, ht⟩) r.1
+    have e3 := bind_rt (let ⟨t, ht, _⟩ := c.2.1; ⟨t, ht⟩) r.2.1
+    have e4 := bind_rt (let ⟨t, ht, _⟩ := c.2.2.1; ⟨t, ht⟩) r.2.2
+    intro b hb; simp only [eqChecks, e1, e2, e3, e4, decide_true, List.mem_cons, List.not_mem_nil, or_false, or_self] at hb
+    exact hb
+  | el d =>
+    have c := converts_from_el d h
+    have r := roundtrip_el d h
+    have e1 := rebuild_el d h
+    have e2 := bind_rt (let ⟨t, ht, _⟩ := c.1; ⟨t, ht⟩) r.1
+    have e3 := bind_rt (let ⟨t, ht, _⟩ := c.2.1; ⟨t, ht⟩) r.2.1
+    have e4 := bind_rt (let ⟨t, ht, _⟩ := c.2.2.1 hf; ⟨t, ht⟩) r.2.2
+    intro b hb; simp only [eqChecks, e1, e2, e3, e4, decide_true, List.mem_cons, List.not_mem_nil, or_false, or_self] at hb
+    exact hb
+  | wl d =>
+    have e1 := rebuild_wl d h.1
+    intro b hb; simp only [eqChecks, e1, decide_true, List.mem_cons, List.not_mem_nil, or_false] at hb
+    exact hb
+
+/-- … in particular for everything `From<arcs>` returns (the matrix of the round-4 seed). -/
+theorem from_arcs_eqChecks (arcs : List (Nat × Nat)) (hne : arcs ≠ []) (hnl : ∀ a ∈ arcs, a.1 ≠ a.2)
+    (hf : Fits (maxId arcs + 1)) :
+    (∃ d, Conv.MX.fromArcs arcs = some d ∧ ∀ b ∈ eqChecks (.mx d), b = true) ∧
+    (∃ d, Conv.EL.fromArcs arcs = some d ∧ ∀ b ∈ eqChecks (.el d), b = true) := by
+  obtain ⟨d, hd, hok, hs⟩ := (from_arcs arcs).1 hne hnl hf
+  obtain ⟨e, he, hoke, hse⟩ := (from_arcs arcs).2.1 hnl
+  exact ⟨⟨d, hd, eqChecks_true (.mx d) hok (by show Fits d.order; rw [hs.1]; exact hf)⟩,
+         ⟨e, he, eqChecks_true (.el e) hoke (by show Fits e.order; rw [hse.1]; exact hf)⟩⟩
+
 /-- **C16, full statement.** -/
 theorem statement_holds : Statement :=
   ⟨converts_from_al, converts_from_am, converts_from_mx, converts_from_el,
@@ -380,6 +453,8 @@ example : (alToWL exAL).map (·.arcsWeighted) = some [(0,1,1),(0,2,1),(1,2,1),(2
 example : (alToEL exAL).bind elToAL = some exAL := by decide
 example : ((runChain (.al exAL) ["am", "mx", "el", "al", "wu"]).map (·.map (·.map (·.arcs)))) =
     some (List.replicate 5 (some [(0,1),(0,2),(1,2),(2,0)])) := by decide
+example : eqChecks (.al exAL) = [true, true, true, true] := by decide
+example : (Conv.MX.fromArcs [(7, 0)]).map (fun d => eqChecks (.mx d)) = some [true, true, true, true] := by decide
 example : Conv.AL.fromRows [[1], [1]] = none := by decide       -- self-loop
 example : Conv.AM.fromRows [[1], [2]] = none := by decide       -- head out of range
 example : (Conv.EL.fromArcs [(3,1),(1,3),(3,1)]).map (fun d => (d.order, d.arcs)) = some (4, [(1,3),(3,1)]) := by decide
